@@ -299,7 +299,7 @@ Qed.
 Record unl (h h' : heap) : Prop := mkUnl {
   u_struct : same_struct h h';
   u_node : forall n a b, lookup h n = Some a -> lookup h' n = Some b ->
-             pars a = pars b /\ (b = a \/ flg b <> FTrue) /\ (mm b = true -> mm a = true)
+             pars a = pars b /\ (b = a \/ flg b <> FTrue) /\ (mm b = true -> mm a = true) /\ shm a = shm b /\ mm a = mm b
 }.
 
 Lemma unl_refl : forall h, unl h h.
@@ -313,8 +313,8 @@ Proof.
   intros n x z Hx Hz.
   pose proof (S1 n) as Hs. unfold same_node_structure in Hs. rewrite Hx in Hs.
   destruct (lookup b n) as [y|] eqn:Hy; [|contradiction].
-  destruct (N1 n x y Hx Hy) as (P1 & Q1 & M1). destruct (N2 n y z Hy Hz) as (P2 & Q2 & M2).
-  split; [congruence|]. split; [|auto]. destruct Q2 as [->|Q2]; [exact Q1|right; exact Q2].
+  destruct (N1 n x y Hx Hy) as (P1 & Q1 & M1 & S1' & E1). destruct (N2 n y z Hy Hz) as (P2 & Q2 & M2 & S2' & E2).
+  split; [congruence|]. split; [|split; [auto|split; congruence]]. destruct Q2 as [->|Q2]; [exact Q1|right; exact Q2].
 Qed.
 
 Lemma unl_flag : forall h h' n, unl h h' -> flag_true h' n = true -> flag_true h n = true.
@@ -372,11 +372,12 @@ Definition punlock_post (h : heap) (fuel : nat) (n : nat) (h' : heap) (subs : li
   depth_lt h fuel n.
 
 Lemma upd_unl : forall h n nd nd', lookup h n = Some nd -> nk nd' = nk nd -> ents nd' = ents nd -> pars nd' = pars nd ->
-  flg nd' <> FTrue -> (mm nd' = true -> mm nd = true) -> unl h (upd h n nd').
+  flg nd' <> FTrue -> shm nd' = shm nd -> mm nd' = mm nd -> unl h (upd h n nd').
 Proof.
-  intros h n nd nd' E K En Pa Fl Mm. split; [eapply upd_same_struct; eassumption|].
+  intros h n nd nd' E K En Pa Fl Sh Mm. split; [eapply upd_same_struct; eassumption|].
   intros m a b Ha Hb. rewrite lookup_upd in Hb. destruct (Nat.eqb_spec m n) as [->|Hne].
-  - rewrite E in Hb. inversion Hb. subst b. rewrite E in Ha. inversion Ha. subst a. split; [congruence|split; [right; exact Fl|exact Mm]].
+  - rewrite E in Hb. inversion Hb. subst b. rewrite E in Ha. inversion Ha. subst a.
+    split; [congruence|split; [right; exact Fl|split; [congruence|split; congruence]]].
   - rewrite Ha in Hb. inversion Hb. auto.
 Qed.
 
@@ -396,7 +397,7 @@ Proof.
   destruct (nk nd) eqn:K.
   - (* TensorDict *)
     set (nd1 := clear_node nd) in *.
-    assert (U1 : unl h (upd h n nd1)) by (eapply upd_unl; [exact E|reflexivity|reflexivity|reflexivity|cbn; discriminate|cbn; auto; discriminate]).
+    assert (U1 : unl h (upd h n nd1)) by (eapply upd_unl; [exact E|reflexivity|reflexivity|reflexivity|cbn; discriminate|reflexivity|reflexivity]).
     assert (Fold : forall l ha acc hb accb,
               fold_opt (fun (a : heap * list nat) c => match punlock f (fst a) c with
                                                       | Some (h', sub) => Some (h', snd a ++ sub ++ [c]) | None => None end)
@@ -456,7 +457,7 @@ Proof.
     + intros c Hc. apply Db. unfold child, children in Hc. rewrite E in Hc. exact Hc.
   - (* lazy stack: same, with one list per distinct member *)
     set (nd1 := set_flag nd FNone) in *.
-    assert (U1 : unl h (upd h n nd1)) by (eapply upd_unl; [exact E|reflexivity|reflexivity|reflexivity|cbn; discriminate|cbn; auto; discriminate]).
+    assert (U1 : unl h (upd h n nd1)) by (eapply upd_unl; [exact E|reflexivity|reflexivity|reflexivity|cbn; discriminate|reflexivity|reflexivity]).
     assert (Fold : forall l ha d hb db,
               fold_opt (fun (a : heap * list (nat * list nat)) c => match punlock f (fst a) c with
                                                       | Some (h', sub) => Some (h', dict_set (snd a) c (sub ++ [c])) | None => None end)
@@ -682,4 +683,43 @@ Proof.
       intros Hr x [->|Hx].
       * exists s. split; [apply chk_refl|exact B].
       * destruct (Hall Hr x Hx) as [sx [Cx Bx]]. exists sx. split; [eapply chk_trans; eassumption|exact Bx].
+Qed.
+
+(* ---------------------------------------------------------------------------------------------- unshare (an accepted unlock_) *)
+Lemma unshare_node_idem : forall nd, unshare_node (unshare_node nd) = unshare_node nd.
+Proof. intros nd. unfold unshare_node. destruct (nk nd) eqn:K; cbn; rewrite ?K; reflexivity. Qed.
+
+Lemma unshare_node_keeps : forall nd, nk (unshare_node nd) = nk nd /\ ents (unshare_node nd) = ents nd /\ flg (unshare_node nd) = flg nd
+  /\ pars (unshare_node nd) = pars nd /\ (mm (unshare_node nd) = true -> mm nd = true).
+Proof. intros nd. unfold unshare_node. destruct (nk nd) eqn:K; cbn; repeat split; auto; discriminate. Qed.
+
+Lemma lookup_unshare : forall l h x,
+  lookup (unshare h l) x = match lookup h x with Some nd => Some (if memb x l then unshare_node nd else nd) | None => None end.
+Proof.
+  induction l as [|y r IH]; intros h x; cbn [unshare].
+  - cbn. destruct (lookup h x); reflexivity.
+  - rewrite IH. unfold memb. cbn [existsb]. fold (memb x r).
+    destruct (lookup h y) as [ndy|] eqn:Ey.
+    + rewrite lookup_upd. destruct (Nat.eqb_spec x y) as [->|Hne].
+      * rewrite Ey. cbn. destruct (memb y r); [rewrite unshare_node_idem|]; reflexivity.
+      * cbn. reflexivity.
+    + destruct (Nat.eqb_spec x y) as [->|Hne]; [rewrite Ey; reflexivity|cbn; reflexivity].
+Qed.
+
+Lemma unshare_flag : forall l h x, flag_true (unshare h l) x = flag_true h x.
+Proof.
+  intros l h x. unfold flag_true. rewrite lookup_unshare. destruct (lookup h x) as [nd|]; [|reflexivity].
+  destruct (memb x l); [|reflexivity]. now rewrite (proj1 (proj2 (proj2 (unshare_node_keeps nd)))).
+Qed.
+
+Lemma unshare_struct : forall l h, same_struct h (unshare h l).
+Proof.
+  intros l h x. unfold same_node_structure. rewrite lookup_unshare. destruct (lookup h x) as [nd|]; [|exact I].
+  destruct (memb x l); [|split; reflexivity]. destruct (unshare_node_keeps nd) as (K & E & _). split; congruence.
+Qed.
+
+Lemma unshare_mm : forall l h x a b, lookup h x = Some a -> lookup (unshare h l) x = Some b -> mm b = true -> mm a = true.
+Proof.
+  intros l h x a b Ea Eb Mb. rewrite lookup_unshare, Ea in Eb. inversion Eb. subst b.
+  destruct (memb x l); [|exact Mb]. now apply (unshare_node_keeps a).
 Qed.
